@@ -12,7 +12,7 @@ EXPLANATION = ("The real CORRELATION, xcorr and corrmtx are executed on symbolic
 BOUNDS = {
     "quick": "lengths of x, y in 1..3 (equal and unequal), all maxlags in 0..N-1, all four norms, real and complex; "
              "xcorr N<=3; corrmtx N<=4, m<=2 (all five methods); PSD/dominance by CAD N<=3 (real), N<=2 (complex)",
-    "thorough": "lengths 1..5; xcorr N<=5; corrmtx N<=5, m<=3; PSD/dominance by CAD N<=4 real, N<=3 complex",
+    "thorough": "lengths 1..5; xcorr N<=5; corrmtx N<=5, m<=3; PSD/dominance by CAD N<=4 real, N<=2 complex (beyond: Gram identity + lemma)",
 }
 ASSUMPTIONS = ["floats modelled as exact reals", "array sizes are concrete and bounded (see bounds)",
                "scipy.signal.correlate modelled by its definition"]
@@ -229,7 +229,7 @@ def cases(tier, seed):
                 for method in ('autocorrelation', 'prewindowed', 'postwindowed', 'covariance', 'modified'):
                     out.append(Case("corrmtx:def:%s:%s:n=%d:m=%d" % (method, 'cx' if cplx else 're', n, m),
                                     case_corrmtx_def, dict(n=n, m=m, cplx=cplx, method=method)))
-        for n in range(1, (3 if q else 4) + 1 - (1 if cplx else 0)):
+        for n in range(1, ((3 if q else 4) if not cplx else 2) + 1):
             out.append(Case("dominance:%s:n=%d" % ('cx' if cplx else 're', n), case_dominance, dict(n=n, cplx=cplx),
                             timeout=60 if q else 300))
         for n in range(1, (3 if q else 4) - (1 if cplx else 0)):
